@@ -635,6 +635,10 @@ def gen_random(ctx, tb, n):
                 patches.append((1, rng.choice([rty, rsyn, rsyn, 'zzother']), sec, k, rng.choice(MARKERS)))
         c = mk_case('random', ty, syn, user, glob_, patches)
         c['class'] = class_of(tb, rty, rsyn)
+        if 'context' not in user and rng.random() < 0.5:
+            # also through expand(): the oracle compares with the flattened configuration, the expand model
+            # (proofs/ConfigExpand.v) with its own result (values of undocumented types are outside the model)
+            c['abbr'] = 'p10+zzq' if rty == 'stylesheet' else rng.choice(['div>p', 'ul>li*2', 'a+br', 'p{${zzv}}', 'zzq>a:link'])
         cases.append(c)
     return cases
 
@@ -934,7 +938,7 @@ def coq_expand_tie(ctx, thorough):
         for k in sorted(groups, key=repr):
             g = groups[k]
             chosen += ctx.rng.sample(g, min(4, len(g)))
-        budget = int(os.environ.get('C20_EXPAND_QUICK', '224'))
+        budget = int(os.environ.get('C20_EXPAND_QUICK', '160'))
         if len(chosen) > budget:
             chosen = sorted(ctx.rng.sample(chosen, budget))
     xc['stylesheet_cases_not_sampled'] += len(items) - len(chosen)
